@@ -217,7 +217,14 @@ func (g *genState) schemaC03(idx int) schemaSpec {
 
 func (g *genState) pick(ss []string) string { return ss[g.r.IntN(len(ss))] }
 
+// integers beyond 2^53 that differ by less than the float64 spacing at their size (nanosecond timestamps, 64-bit ids)
+var adjacentBigInts = []int64{1<<53 + 1, 1<<53 + 2, 1<<53 + 3, -(1 << 53) - 1, -(1 << 53) - 2, 1700000000000000001, 1700000000000000002, 1700000000000000003,
+	math.MaxInt64 - 1, math.MaxInt64 - 2, math.MaxInt64 - 3, math.MinInt64 + 1, math.MinInt64 + 2}
+
 func (g *genState) genInt() int64 {
+	if g.profile == "c06" && g.r.IntN(3) == 0 {
+		return adjacentBigInts[g.r.IntN(len(adjacentBigInts))]
+	}
 	if g.r.IntN(3) == 0 {
 		return int64(g.r.IntN(21) - 10)
 	}
